@@ -146,8 +146,10 @@ impl Prop for C02T {
         // a quarter of the messages get one unit that fails during *execution* (wrong
         // parameter count, unconvertible parameter, handler error): its header is valid,
         // so it moves the path context like any other unit
+        // (not in histories with newline payloads: what is skipped after an error is only
+        // defined for messages whose one newline is the terminator, see C06)
         for msg in msgs.iter_mut() {
-            if msg.units.is_empty() || !rng.chance(1, 4) {
+            if msg.units.is_empty() || pay == Payloads::SpecialNl || !rng.chance(1, 4) {
                 continue;
             }
             let j = rng.below(msg.units.len());
